@@ -185,17 +185,24 @@ def oracle_bounded_instance():
                 B.used_env[key] = int(field[k, f])
         mask = ref[field, np.arange(F)]
         if flat:
-            return {'ref': ref[:, 0, :], 'mask': mask[:, 0, :], 'metric': metric, 'alg': alg, 'flat': True}
-        return {'ref': ref, 'mask': mask, 'metric': metric, 'alg': alg, 'flat': False}
+            return {'ref': ref[:, 0, :], 'mask': mask[:, 0, :], 'metric': metric, 'alg': alg, 'flat': True, 'soft': True}
+        return {'ref': ref, 'mask': mask, 'metric': metric, 'alg': alg, 'flat': False, 'soft': True}
 
     def call(inp):
         al = pa.OraclePermutationAlignment(inp['metric'], inp['alg'])
+        mask, ref = np.array(inp['mask'], copy=True), np.array(inp['ref'], copy=True)      # the library gets its own copies
+        if inp['soft']:
+            mask, ref = mask.astype(np.float64), ref.astype(np.float64)
+        m0, r0 = mask.copy(), ref.copy()
         if inp['flat']:
-            return inp['mask'][al.calculate_mapping(inp['mask'], inp['ref'])]
-        return al(inp['mask'], inp['ref'])
+            res = mask[al.calculate_mapping(mask, ref)]
+        else:
+            res = al(mask, ref)
+        return {'res': np.asarray(res), 'pristine_ref': r0, 'untouched': bool(np.array_equal(mask, m0) and np.array_equal(ref, r0))}
 
     def ensures(sp, inp, out):
-        yield 'reference-restored-exactly', bool(np.array_equal(np.asarray(out), np.asarray(inp['ref'])))
+        yield 'reference-restored-exactly', bool(np.array_equal(out['res'], out['pristine_ref']))
+        yield 'arguments-untouched', out['untouched']
 
     return Instance('C15', PA + 'OraclePermutationAlignment.calculate_mapping', 'bounded-oracle-inversion', make, call, ensures,
                     mode='bounded', bounded_n=300, frame=False)
